@@ -39,6 +39,9 @@ func main() {
 				fn.WriteTo(os.Stdout)
 			}
 		}
+		if *ssaDump == "init" {
+			p.Root.Func("init").WriteTo(os.Stdout)
+		}
 		return
 	}
 
